@@ -6,6 +6,16 @@ import OAP.Gen.Facts
 namespace OAP.C13
 open OAP OAP.Dispatch
 
+/-- T2 structure facts, regenerated from go/client on every run (the operations themselves, in source order): routing order control → push → response; handlePush calls every subscriber of the command in slice order; the reader's enqueue is non-blocking with a drop branch -/
+theorem source_order :
+    Gen.seq_client_onPacket = ["c.reconnecting", "c.handleControl", "c.handlePush", "c.handleResponse"] ∧
+    Gen.seq_client_handleControl = ["c.handlePing", "c.handlePong", "c.closeByServer", "c.handleResponse"] ∧
+    Gen.seq_client_handlePush = ["sub"] ∧
+    Gen.seq_tcpConn_addPacket = ["select", "send:conn.packetCh", "default"] ∧
+    Gen.seq_wsConn_addPacket = ["select", "send:conn.packetCh", "default"] := by
+  decide
+
+
 /-- T2: the control bound of the code (`IsControl(cmd) = cmd <= 3`) regenerated from go/packet.go -/
 theorem control_bound : Gen.protocol_controlMax = 3 := by decide
 
